@@ -57,6 +57,9 @@ type M struct {
 	issuedN  map[string]int
 	smsIssue map[string]int // code -> how many times that code value has been sent
 	pidOwner map[string]string
+	smsOrigin   map[string]string
+	cookieOwner map[string]string
+	revoked     map[string]bool
 	lastAct  map[string]time.Time
 	lastActU map[string]string
 	Last    *world.Result
@@ -134,7 +137,8 @@ func New(cfg world.Cfg, out *wire.Out) (*M, error) {
 		return nil, err
 	}
 	m := &M{W: w, Cfg: cfg, Out: out, sha: map[string]string{}, bc: map[string]string{}, Secrets: map[string]string{},
-		used: map[string]int{}, issuedN: map[string]int{}, smsIssue: map[string]int{}}
+		used: map[string]int{}, issuedN: map[string]int{}, smsIssue: map[string]int{},
+		smsOrigin: map[string]string{}, cookieOwner: map[string]string{}, revoked: map[string]bool{}}
 	out.Add(CfgLine(cfg), "cfg-ok")
 	return m, nil
 }
@@ -738,6 +742,11 @@ func (m *M) HTTP(b, route string, a Args, fault *world.Fault) *world.Result {
 	}
 	for _, sm := range r.NewSMS {
 		m.smsIssue[sm.Code]++
+		origin := route
+		if route == "login" || route == "otplogin" || route == "recend" {
+			origin = "login-hijack"
+		}
+		m.smsOrigin[sm.Code] = origin
 	}
 	if fresh == "" && len(r.NewSMS) > 0 {
 		fresh = r.NewSMS[len(r.NewSMS)-1].Code
@@ -891,6 +900,11 @@ func (m *M) APIUpdatePassword(pid, pw string) {
 	}
 	m.Out.Add("m updpw "+wire.Hex(pid)+" "+wire.Hex(pw), "ok "+m.StoreLine())
 	if err == nil && uerr == nil {
+		for ck, owner := range m.cookieOwner {
+			if owner == pid {
+				m.revoked[ck] = true
+			}
+		}
 		if n := len(m.W.Store.Tokens[pid]); n != 0 {
 			m.violate("C06", "update-tokens-kept", fmt.Sprintf("UpdatePassword(%q) reported success but %d remember token(s) of that account still work", pid, n), "")
 		}
